@@ -576,7 +576,7 @@ int dns_decode(char *buf, size_t buflen, struct query *q, qr_t qr, char *packet,
 			offset = 0;
 			i = 0;
 			while (names[i][0] != '\0') {
-				int l = MIN(strlen(names[i]), buflen-offset-2);
+				int l = MIN((int) strlen(names[i]), (int) buflen - offset - 2);
 				if (l <= 0)
 					break;
 				memcpy(buf + offset, names[i], l);
